@@ -920,6 +920,10 @@ static void janet_thread_chan_cb(JanetEVGenericMessage msg) {
                 msg.argp = channel;
                 msg.argj = x;
                 janet_ev_post_event(vm, janet_thread_chan_cb, msg);
+            } else {
+                /* Nobody is waiting any more: keep the message for the next take instead of dropping it.
+                 * It is older than anything queued since, so it goes to the head. */
+                janet_q_push_head(&channel->items, &x, sizeof(Janet));
             }
         } else {
             JanetChannelPending writer;
